@@ -278,7 +278,8 @@ impl UintVecMin0 {
 
             while remaining_bits > 0 {
                 let bits_in_byte = (8 - curr_bit_offset).min(remaining_bits);
-                let byte_mask = ((1u8 << bits_in_byte) - 1) << curr_bit_offset;
+                // bits_in_byte can be 8: compute the mask in a wider type
+                let byte_mask = (((1u16 << bits_in_byte) - 1) as u8) << curr_bit_offset;
                 let byte_val = ((remaining_val & ((1 << bits_in_byte) - 1)) as u8) << curr_bit_offset;
 
                 self.data[curr_byte] = (self.data[curr_byte] & !byte_mask) | byte_val;
@@ -435,7 +436,13 @@ impl UintVecMin0 {
         assert!(bits <= 64, "Bits must be <= 64");
 
         self.bits = bits;
-        self.mask = if bits == 0 { 0 } else { (1usize << bits) - 1 };
+        self.mask = if bits == 0 {
+            0
+        } else if bits >= 64 {
+            usize::MAX // `1 << 64` would overflow
+        } else {
+            (1usize << bits) - 1
+        };
         self.size = num;
 
         let mem_size = Self::compute_mem_size(bits, num);
